@@ -187,7 +187,7 @@ def main(argv=None):
         samples.append({"obligation": e["name"], "kind": e["kind"], "vcs": len(e["vcs"]), "status": e["status"], "bounded": e["bounded"]})
     n_known = sum(len(v) for v in known_hit.values())
     proved_unb = sum(1 for e in unb if e["status"] == "proved")
-    level = "proof" if unb else "exploration"
+    level = "proof" if unb else "other"
     cov = {
         "checker_cmd": f"./check {prop} --tier {args.tier}",
         "trusted_base": [ASSUMPTIONS[a] for a in PROP_ASSUMPTIONS.get(prop, sorted(ASSUMPTIONS))],
@@ -209,7 +209,7 @@ def main(argv=None):
         "evaluations": len(all_vcs),
         "distinct_nontrivial": len(obs),
         "rule": "one case = one named obligation (postcondition clause, safety condition, frame condition or exception-freedom of one path) generated from the current /repo source; distinct = distinct obligation names",
-        "explanation": "contract scenarios executed symbolically on the real source (tpv), every obligation discharged by z3 (cvc5 for unknowns / thorough tier)",
+        "explanation": "contract scenarios executed symbolically on the real source (tpv), every obligation discharged by z3 (nlsat on a sound QF_NRA weakening, cvc5 for unknowns / thorough tier). 'bounded' obligations are deductive proofs for all row counts, tensor contents, weights and user functions at an ENUMERATED structure size (number of variables / declared parameters / layer widths); they are reported separately and never added to 'discharged'.",
         "undecided": [e["name"] for e in undecided],
         "errors": [f"{r['scenario']}[{r['cfg']}]: {r['error']}" for r in errors],
     }
